@@ -68,7 +68,12 @@ fn term_candidates(t: &TD) -> Vec<TD> {
         }
         _ => {}
     }
-    // recurse: shrink one child in place
+    // recurse: shrink one child in place — only for moderately sized terms: for big ones the local
+    // candidates above (replace by a child, drop a child) shrink fast, and building every nested
+    // candidate eagerly would cost O(size^2) clones per step
+    if t.size() > 60 {
+        return out;
+    }
     for i in 0..t.kids.len() {
         for kc in term_candidates(&t.kids[i]) {
             // images must not get a bare placeholder as direct component
